@@ -44,6 +44,10 @@ structure WF (cfg : Cfg) (M : Manifest) (m : Mem) (c : Choice) (d : Disk) : Prop
   /-- the final write_toml of `loop()` stores nothing and is not reached right after a restart -/
   final : c.inc = false → c.accs = [] ∧ m.restartedFrom ≠ some m.cstep
 
+theorem rowsOK_iff' (df : DataFile) (act : List Nat) :
+    rowsOK df act = true ↔ df.torn = false ∧ df.garbled = 0 ∧ df.rows.Nodup ∧ ∀ p ∈ df.rows, p ∉ act := by
+  simp [rowsOK, and_assoc]
+
 abbrev loopEffs (cfg : Cfg) (m : Mem) (c : Choice) (d : Disk) : List Effect :=
   accLoop cfg c.accs m.trajNum m.olds d
 
@@ -147,6 +151,9 @@ theorem crash_incomplete (cfg : Cfg) (M : Manifest) (m : Mem) (c : Choice) (d : 
     ∃ r0, d.restart = .complete r0 ∧
       ((crashStep cfg m c d k h).restart = .complete r0
         ∧ (inRowWindow cfg m c d k h = false → (crashStep cfg m c d k h).data = d.data)
+        ∧ (∃ n, (crashStep cfg m c d k h).data.rows
+                  = d.data.rows ++ (c.accs.map (fun a => a.old.pn)).take n
+                ∧ (crashStep cfg m c d k h).data.garbled = d.data.garbled)
        ∨ (cfg.variant = .asIs ∧ k = restartIdx cfg m c d + 1
           ∧ ((crashStep cfg m c d k h).restart = .empty ∨ (crashStep cfg m c d k h).restart = .part))) := by
   obtain ⟨r0, hr0, _⟩ := hI.record
@@ -156,18 +163,28 @@ theorem crash_incomplete (cfg : Cfg) (M : Manifest) (m : Mem) (c : Choice) (d : 
   · left
     rw [crash_split_lt cfg m c d k h hk]
     obtain ⟨_, f2, f3, _⟩ := crashAt_frame hown d k h
-    exact ⟨by rw [f3, hr0], fun _ => f2⟩
+    exact ⟨by rw [f3, hr0], fun _ => f2, 0, by rw [f2]; simp, by rw [f2]⟩
   · have hk' : (loopEffs cfg m c d).length ≤ k := Nat.le_of_not_lt hk
     have hr1 : (run (loopEffs cfg m c d) d).restart = .complete r0 := by
       rw [(run_frame hown d).2.2.1]; exact hr0
     have hd1 : (run (loopEffs cfg m c d) d).data = d.data := (run_frame hown d).2.1
-    obtain ⟨t1, t2, t3, t4, _⟩ := tail_spec c cfg.variant (newRec m c) r0 _ hr1
+    have htorn : d.data.torn = false := ((rowsOK_iff' _ _).1 hI.rows).1
+    obtain ⟨t1, t2, t3, t4, _, t6⟩ := tail_spec c cfg.variant (newRec m c) r0 _ hr1
       (k - (loopEffs cfg m c d).length) h
     rw [crash_split_ge cfg m c d k h hk']
     rw [stepEffs_length] at hlt
     rcases t2 with t | ⟨t, tl⟩ | ⟨tv, tj, tt⟩
     · left
-      refine ⟨t, fun hwin => ?_⟩
+      refine ⟨t, fun hwin => ?_, ?_⟩
+      rotate_left
+      · rw [hd1] at t6
+        rcases t6 with e | e | e
+        · exact ⟨0, by rw [e]; simp, by rw [e]⟩
+        · refine ⟨c.halfRows, ?_, ?_⟩ <;> rw [e] <;> split <;>
+            simp [appendRows_of_not_torn _ _ htorn]
+        · exact ⟨(c.accs.map (fun a => a.old.pn)).length, by
+            rw [e, appendRows_of_not_torn _ _ htorn, List.take_length], by
+            rw [e, appendRows_of_not_torn _ _ htorn]⟩
       rw [← hd1]
       apply t4
       by_cases he : c.accs.isEmpty = true
